@@ -27,9 +27,9 @@ HARNESSES = {
                    thorough="2..4 leaves (identity / reverse / rotation for 4)"),
         replay=dict(kind="check_flat", par_runs=10)),
     "outcomes_any_order": dict(props=["C02"], crates=CRC, fn=_wrap(lambda I, h, **kw: h_graph.scheduling(I, h, outcomes=True, **kw)),
-        params=dict(quick=dict(N=2, NE=2), thorough=dict(N=3, NE=2)), witnesses=["reordered", "in-order"],
+        params=dict(quick=dict(N=2, NE=2), thorough=dict(N=2, NE=2)), witnesses=["reordered", "in-order"],
         bound=dict(quick="graphs of 1..2 nodes / <=2 edges, one node may fail / be unsatisfied / output data, both collect_all values: failing indices, data outputs and gas do not depend on the order",
-                   thorough="1..3 nodes"),
+                   thorough="same bound (3 nodes with every permutation in both passes: no answer after 1 900 s at 14 workers)"),
         replay=dict(kind="check_graph", par_runs=10), timeout=dict(quick=900, thorough=3300), max_paths=dict(quick=400000, thorough=3000000), heavy=True),
     "solutions_any_order": dict(props=["C02"], crates=CRC, fn=_wrap(h_levels.set_level),
         params=dict(quick=dict(smax=3), thorough=dict(smax=4)), witnesses=["reordered", "in-order"],
